@@ -108,6 +108,14 @@ def _has_typed_edge(G, u, v, edge_name_attr: str) -> bool:
     return edge_type is not None and G.has_edge(u, v, edge_type)
 
 
+def _is_tetrad_name(name: str) -> bool:
+    """Check that a node name survives the tetrad text format.
+
+    Names are separated by ';' in the node line and by whitespace in the edge lines.
+    """
+    return ";" not in name and name.split() == [name]
+
+
 def graph_to_tetrad(G, filename: str):
     """Convert a pywhy causal graph to a tetrad text file.
 
@@ -122,6 +130,11 @@ def graph_to_tetrad(G, filename: str):
 
     graph_edge_dict: Dict = dict()
     for idx, node in enumerate(G.nodes):
+        if not _is_tetrad_name(f"{node}"):
+            raise ValueError(
+                f"The node {node!r} cannot be written to a tetrad file: node names must be "
+                f"non-empty and must not contain whitespace or ';'."
+            )
         if idx == 0:
             tetrad_txt += f"{node}"
         else:
